@@ -113,4 +113,23 @@ def handler (iso : Bool := false) : Handler := fun payload impl =>
   | none => ("BAD-CASE", "-")
   | some c => (if noOracle impl || impl.endsWith "end timeout" then "NOMODEL " ++ impl else vmLine c, judge c iso impl)
 
+/-! ### c01.deep: closed-form answers of deep runs (the VM model is not run: its inner fuel is an artefact)
+
+  `pt`, `lst`, `down`, `both` hand one value through N activations, `len` counts them, the chains bind N
+  variables to each other: by induction on N the reference semantics gives exactly ONE answer, shown below. -/
+def deepHandler : Handler := fun payload impl =>
+  let want : Option String :=
+    match words payload with
+    | [k, n] =>
+      match natOfChars n.toList with
+      | none => none
+      | some n =>
+        if k == "len" || k == "last" then some s!"ans I{n}"
+        else if k ∈ ["pass", "down", "both", "chain", "chainr", "chainm"] then some "ans Adone"
+        else none
+    | _ => none
+  match want with
+  | none => ("BAD-CASE", "-")
+  | some w => (w, if impl == w then "ok" else s!"FAIL the reference semantics gives exactly one answer, {w}; the interpreter: {impl}")
+
 end PrologVerif.Driver.C01
